@@ -1,5 +1,6 @@
 """C14 - DNSSEC wire-format primitives agree with the RFCs for every key."""
 import argparse
+import re
 import base64
 import datetime as dt
 import hashlib
@@ -235,11 +236,19 @@ def _cap(data=b""):
 
 
 kd.sha256 = _cap
-for i in range(100 * N + len(STEER)):
+ZERO_DS = []
+while len(ZERO_DS) < 6:
+    pub_ = rand_bytes(64)
+    dg_ = dns.dnssec.make_ds(ROOT, dns_dnskey(257, 3, 13, pub_), "SHA256").digest
+    if dg_[0] < 16 and (len(ZERO_DS) < 4 or dg_[0] == 0):
+        ZERO_DS.append(pub_)
+for i in range(100 * N + len(STEER) + len(ZERO_DS)):
     flags = R.choice([256, 257, 385])
     alg = R.choice([8, 10, 13, 14])
     pub = rand_bytes(64 if alg == 13 else 96 if alg == 14 else R.choice([67, 131, 260]))
-    if i >= 100 * N:
+    if i >= 100 * N + len(STEER):
+        flags, alg, pub = 257, 13, ZERO_DS[i - 100 * N - len(STEER)]          # DS digests beginning with a zero nibble / a zero octet
+    if 100 * N <= i < 100 * N + len(STEER):
         flags, alg, n_, t_ = STEER[i - 100 * N]
         pub = steered_pub(flags, alg, n_, t_)
     k0 = mk_key(flags, 3, alg, pub, kid="Kds")
@@ -251,15 +260,18 @@ for i in range(100 * N + len(STEER)):
     def ds():
         captured.clear()
         r = kd.create_trustanchor_keydigest(ksk, k)
-        return captured["pre"], r.digest, r.key_tag, r.algorithm.value
+        m_ = re.search(r"<Digest>([^<]*)</Digest>", r.to_xml())
+        return captured["pre"], r.digest, r.key_tag, r.algorithm.value, r.hexdigest(), m_.group(1) if m_ else None
 
     ir = vlib.run_impl(ds)
     ok, msg = True, ""
     if ir[0] == "ok":
-        pre, digest, ktag, kalg = ir[1]
+        pre, digest, ktag, kalg, hexd, xmld = ir[1]
         ref = dns.dnssec.make_ds(ROOT, dns_dnskey(flags, 3, alg, pub), "SHA256")
         if ref.digest != digest or hashlib.sha256(pre).digest() != digest or ref.key_tag != ktag or ref.algorithm != kalg:
             ok, msg = False, f"DS differs from dnspython: {ref.digest.hex()} vs {digest.hex()}"
+        elif hexd != ref.digest.hex().upper() or xmld != ref.digest.hex().upper():
+            ok, msg = False, f"DS digest as text ({hexd} / in XML {xmld}) is not the 64 hexadecimal digits of the RFC 4509 digest {ref.digest.hex().upper()}"
         add("ds", f"CDs {coq_key(k, with_txt=False)} (OK {zlist(pre)})", {"flags": flags, "alg": alg, "pub": pub.hex()}, ok, msg)
     else:
         add("ds", f"CDs {coq_key(k, with_txt=False)} (Raise {ir[1]})", {"flags": flags, "alg": alg, "pub": pub.hex()}, False, f"raised {ir}")
